@@ -1660,3 +1660,221 @@ func ruleRewriterDescends(scopeFiles func(string) bool, ruleID string, min int) 
 
 // auditedRewriterPrunes: "<func>/case <T>" -> why the children need no rewriting there
 var auditedRewriterPrunes = map[string]string{}
+
+// N1b: the pipeline from parsing to generation is sequential. A goroutine, channel operation or select in a function
+// reachable from parsing, validation or generation makes the order of results (definitions, diagnostics, files) depend
+// on scheduling; watch mode and the command layer's goroutines are outside these roots.
+func ruleNoConcurrencyInPipeline(c *core.Ctx) {
+	const rule = "N1b"
+	c.Rule(rule, "no `go` statement, channel send/receive or select in any function reachable by static calls from parsing, validation, evolution analysis or code generation", 6)
+	roots := [][2]string{{"pkg/dsl", "ParseYamlInDir"}, {"pkg/dsl", "Validate"}, {"pkg/dsl", "ValidateEvolution"}, {"pkg/dsl", "ParsePackageContents"}, {"internal/cpp", "Generate"},
+		{"internal/python", "Generate"}, {"internal/matlab", "Generate"}, {"internal/cmd", "outputJson"}, {"internal/cmd", "validatePackage"}, {"pkg/packaging", "LoadPackage"}}
+	for _, r := range roots {
+		f, d, _ := c.Func(r[0], r[1])
+		key := "root/" + r[0] + "." + r[1]
+		if f == nil || d == nil {
+			c.Undecided(rule, key, 0, "anchor function not found")
+			continue
+		}
+		reach := c.Reachable([]*types.Func{f}, func(g *types.Func) bool { return !core.InModule(g) })
+		reach[f] = true
+		var where string
+		var at token.Pos
+		n := 0
+		for g := range reach {
+			gd := c.Decl(g)
+			if gd == nil || gd.Body == nil {
+				continue
+			}
+			n++
+			ast.Inspect(gd.Body, func(x ast.Node) bool {
+				if where != "" {
+					return false
+				}
+				switch s := x.(type) {
+				case *ast.GoStmt:
+					where, at = "`go` statement in "+c.FuncName(gd), s.Pos()
+				case *ast.SendStmt:
+					where, at = "channel send in "+c.FuncName(gd), s.Pos()
+				case *ast.SelectStmt:
+					where, at = "select in "+c.FuncName(gd), s.Pos()
+				case *ast.UnaryExpr:
+					if s.Op == token.ARROW {
+						where, at = "channel receive in "+c.FuncName(gd), s.Pos()
+					}
+				case *ast.RangeStmt:
+					if t := c.DeclPkg(gd).TypesInfo.TypeOf(s.X); t != nil {
+						if _, isChan := t.Underlying().(*types.Chan); isChan {
+							where, at = "range over a channel in "+c.FuncName(gd), s.Pos()
+						}
+					}
+				}
+				return true
+			})
+		}
+		if where != "" {
+			c.Bad(rule, key, at, where+": results are merged in scheduling order, so the order of type definitions, protocols or diagnostics (and with it the generated files) can differ between two runs on the same package")
+		} else {
+			c.OK(rule, key, d.Pos(), fmt.Sprintf("%d module functions reachable, all sequential", n))
+		}
+	}
+}
+
+// D1: a set that is consulted is also filled. A local map whose entries are looked up (`_, found := m[k]`, `m[k]`)
+// but into which nothing is ever stored — no `m[k] = v`, not passed on, not captured by a call that could fill it —
+// always answers "not there": the duplicate / already-seen check built on it never fires.
+func ruleLookedUpMapsAreFilled(scope func(string) bool, ruleID string, min int) func(c *core.Ctx) {
+	return func(c *core.Ctx) {
+		c.Rule(ruleID, "every function-local map created empty (make / empty literal) that is indexed for reading is also stored into (or handed to code that can) in the same function", min)
+		for _, d := range c.AllDecls() {
+			if d.Body == nil || !scope(c.Fset.Position(d.Pos()).Filename) || c.IsTestFile(d.Pos()) {
+				continue
+			}
+			info := c.DeclPkg(d).TypesInfo
+			// maps created empty in this function
+			created := map[types.Object]ast.Node{}
+			ast.Inspect(d.Body, func(n ast.Node) bool {
+				as, ok := n.(*ast.AssignStmt)
+				if !ok || as.Tok != token.DEFINE || len(as.Lhs) != len(as.Rhs) {
+					return true
+				}
+				for i, l := range as.Lhs {
+					o := identObj(info, l)
+					if o == nil {
+						continue
+					}
+					if _, isMap := o.Type().Underlying().(*types.Map); !isMap {
+						continue
+					}
+					switch r := ast.Unparen(as.Rhs[i]).(type) {
+					case *ast.CallExpr:
+						if id, ok := r.Fun.(*ast.Ident); ok && id.Name == "make" {
+							created[o] = as
+						}
+					case *ast.CompositeLit:
+						if len(r.Elts) == 0 {
+							created[o] = as
+						}
+					}
+				}
+				return true
+			})
+			if len(created) == 0 {
+				continue
+			}
+			read := map[types.Object]token.Pos{}
+			written := map[types.Object]bool{}
+			ast.Inspect(d.Body, func(n ast.Node) bool {
+				switch s := n.(type) {
+				case *ast.AssignStmt:
+					for _, l := range s.Lhs {
+						if ix, ok := ast.Unparen(l).(*ast.IndexExpr); ok {
+							if o := identObj(info, ix.X); o != nil {
+								written[o] = true
+							}
+						}
+						if o := identObj(info, l); o != nil && s.Tok != token.DEFINE && created[o] != nil {
+							written[o] = true // reassigned as a whole
+						}
+					}
+				case *ast.IncDecStmt:
+					if ix, ok := ast.Unparen(s.X).(*ast.IndexExpr); ok {
+						if o := identObj(info, ix.X); o != nil {
+							written[o] = true
+						}
+					}
+				case *ast.CallExpr:
+					// handed to a call (other than len/delete-free readers): may be filled there
+					if id, ok := ast.Unparen(s.Fun).(*ast.Ident); ok && (id.Name == "len" || id.Name == "delete") {
+						return true
+					}
+					for _, a := range s.Args {
+						if o := identObj(info, a); o != nil && created[o] != nil {
+							written[o] = true
+						}
+						if ue, ok := ast.Unparen(a).(*ast.UnaryExpr); ok && ue.Op == token.AND {
+							if o := identObj(info, ue.X); o != nil && created[o] != nil {
+								written[o] = true
+							}
+						}
+					}
+				case *ast.CompositeLit:
+					for _, el := range s.Elts {
+						v := el
+						if kv, ok := el.(*ast.KeyValueExpr); ok {
+							v = kv.Value
+						}
+						if o := identObj(info, v); o != nil && created[o] != nil {
+							written[o] = true // stored in a struct: may be filled through it
+						}
+					}
+				case *ast.ReturnStmt:
+					for _, r := range s.Results {
+						if o := identObj(info, r); o != nil && created[o] != nil {
+							written[o] = true
+						}
+					}
+				case *ast.IndexExpr:
+					if o := identObj(info, s.X); o != nil && created[o] != nil {
+						if _, seen := read[o]; !seen {
+							read[o] = s.Pos()
+						}
+					}
+				case *ast.RangeStmt:
+					if o := identObj(info, s.X); o != nil && created[o] != nil {
+						if _, seen := read[o]; !seen {
+							read[o] = s.Pos()
+						}
+					}
+				}
+				return true
+			})
+			for o, at := range read {
+				key := c.FuncName(d) + "/map " + o.Name()
+				c.Check(written[o], ruleID, key, at, "filled in the same function", "the map `"+o.Name()+"` is created empty and looked up, but nothing is ever stored into it: every lookup misses, so the check that relies on it (duplicate name, already visited, ...) can never fire")
+			}
+		}
+	}
+}
+
+// E6: nothing is compared with itself. `f(x) != f(x)`, `a.F == a.F`: a comparison whose two operands are the same
+// side-effect-free expression is constant; the check it was meant to make (usually: against the OTHER object) is gone.
+func ruleNoSelfComparison(scope func(string) bool, ruleID string, min int) func(c *core.Ctx) {
+	return func(c *core.Ctx) {
+		c.Rule(ruleID, "no comparison (== != < <= > >=) whose two operands are the same expression", min)
+		n := 0
+		for _, d := range c.AllDecls() {
+			if d.Body == nil || !scope(c.Fset.Position(d.Pos()).Filename) || c.IsTestFile(d.Pos()) {
+				continue
+			}
+			info := c.DeclPkg(d).TypesInfo
+			bad := 0
+			ast.Inspect(d.Body, func(x ast.Node) bool {
+				be, ok := x.(*ast.BinaryExpr)
+				if !ok {
+					return true
+				}
+				switch be.Op {
+				case token.EQL, token.NEQ, token.LSS, token.LEQ, token.GTR, token.GEQ:
+				default:
+					return true
+				}
+				n++
+				if types.ExprString(be.X) != types.ExprString(be.Y) {
+					return true
+				}
+				// floating point x != x is the NaN test
+				if b, ok := info.TypeOf(be.X).Underlying().(*types.Basic); ok && b.Info()&types.IsFloat != 0 {
+					return true
+				}
+				bad++
+				c.Bad(ruleID, c.FuncName(d)+"/"+types.ExprString(be), be.Pos(), "both operands of the comparison are `"+types.ExprString(be.X)+"`: the test is constant, so the condition it guards (conflict, mismatch, change) is never — or always — taken")
+				return true
+			})
+			if bad == 0 && n > 0 {
+				// one obligation per function keeps the instance count meaningful without flooding the evidence
+			}
+		}
+		c.Check(n > 0, ruleID, "comparisons scanned", 0, fmt.Sprintf("%d comparisons, none compares an expression with itself", n), "no comparison found in scope")
+	}
+}
